@@ -199,6 +199,14 @@ class C14(Prop):
             out.append(val_case("return %s;" % t, float(t)))
         for a, b in (("1", "3"), ("01", "03"), ("007", "010"), ("0", "0")):
             out.append(val_case("return %s..%s;" % (a, b), list(range(int(a), int(b) + 1))))
+        # literals of different kinds with the same spelling in one script each denote their own value
+        out.append(val_case('x = 2.5; return ["2.5", 2.5, x];', ["2.5", 2.5, 2.5]))
+        out.append(val_case('x = "2.5"; return [2.5 + 1, x];', [3.5, "2.5"]))
+        out.append(val_case('x = 70000; return ["70000", 70000, x + 1];', ["70000", 70000, 70001]))
+        out.append(val_case('x = "70000"; return [70000 + 1, x];', [70001, "70000"]))
+        out.append(val_case('return "a.c" ~= /a.c/;', True))
+        out.append(val_case('abc = "xyz"; return [abc ~= /abc/, "abc" ~= /abc/, type(/abc/), type("abc")];', [False, True, "regexp", "string"]))
+        out.append(val_case('root = 1; return [type(/root/), "root", root];', ["regexp", "root", 1]))
         for t in ["0x10", "0b11", "0o17", "1_000", "1e3", "0xff", "12abc"]:
             out.append(val_case("return %s;" % t, NotImplemented))
         # ranges: 1..3 is INT DOTDOT INT
